@@ -31,7 +31,7 @@ var fastPairs = [][2]string{{"NONE", "NONE"}, {"NONE", "HUFFMAN"}, {"LZ", "NONE"
 	{"TEXT+UTF", "NONE"}, {"BWTS", "NONE"}, {"NONE", "CM"}, {"FSD", "NONE"}, {"MM", "NONE"}, {"DNA", "NONE"}, {"ALIAS", "ANS0"}}
 
 type readerRun struct {
-	Key  string `json:"key,omitempty"` // runs with the same key must deliver the same number of bytes (same stream, same jobs)
+	Key            string  `json:"key,omitempty"` // runs with the same key must deliver the same number of bytes (same stream, same jobs)
 	Run            int     `json:"run"`
 	Mode           string  `json:"mode"` // clean | damaged | truncated | nock
 	Shape          string  `json:"shape"`
